@@ -176,18 +176,23 @@ func runC11(c *core.Ctx) {
 		c.Analysed(core.FuncName(evm))
 		c.Check(ev.wrappers[evm], "R2", "MonadIODef.Eval", p.Pos(evm.Pos()), "evaluates the receiver once and returns the value", "Eval does not evaluate its receiver exactly once on every path and return that value")
 	}
-	if fm := p.Method(p.Fpgo, "MonadIODef", "FlatMap"); fm == nil || len(fm.AnonFuncs) != 1 {
-		c.Unknown("R2", "MonadIODef.FlatMap", "-", "method or its single closure not found")
+	// the effect closure of a builder: the closure it hands to the MonadIO constructor
+	monadCtor := func(cc *ssa.CallCommon) bool {
+		g := core.Callee(cc)
+		return g != nil && g.Signature.Results().Len() == 1 && core.TypeName(g.Signature.Results().At(0).Type()) == "MonadIODef"
+	}
+	if fm := p.Method(p.Fpgo, "MonadIODef", "FlatMap"); fm == nil || c11effectClosure(p, fm, monadCtor) == nil {
+		c.Unknown("R2", "MonadIODef.FlatMap", "-", "method or its effect closure not found")
 	} else {
-		cl := fm.AnonFuncs[0]
+		cl := c11effectClosure(p, fm, monadCtor)
 		c.Analysed(core.FuncName(cl))
 		ok, detail := c11flatMapClosure(p, fm, cl, ev)
 		c.Check(ok, "R2", "MonadIODef.FlatMap/closure", p.Pos(cl.Pos()), detail, detail)
 	}
-	if j := p.Func(p.Fpgo, "MonadIOJustGenerics"); j == nil || len(j.AnonFuncs) != 1 {
-		c.Unknown("R2", "MonadIOJustGenerics", "-", "function or its closure not found")
+	if j := p.Func(p.Fpgo, "MonadIOJustGenerics"); j == nil || c11effectClosure(p, j, monadCtor) == nil {
+		c.Unknown("R2", "MonadIOJustGenerics", "-", "function or its effect closure not found")
 	} else {
-		cl := j.AnonFuncs[0]
+		cl := c11effectClosure(p, j, monadCtor)
 		ncalls := 0
 		retOK := false
 		core.Instrs(cl, func(ins ssa.Instruction) {
@@ -748,6 +753,33 @@ func (e *c11evals) subject(call *ssa.Call) ssa.Value {
 	}
 	if len(call.Call.Args) > 0 {
 		return call.Call.Args[0]
+	}
+	return nil
+}
+
+
+// c11effectClosure: the closure of builder f that becomes the effect of the MonadIO it builds - stored into the effect
+// field of a fresh MonadIODef, or handed to a MonadIO constructor. nil if there is none or it is not unique.
+func c11effectClosure(p *core.Prog, f *ssa.Function, isCtor func(*ssa.CallCommon) bool) *ssa.Function {
+	var out *ssa.Function
+	n := 0
+	core.Instrs(f, func(ins ssa.Instruction) {
+		st, ok := ins.(*ssa.Store)
+		if !ok || core.FieldKey(st.Addr) != c11effect {
+			return
+		}
+		if fv := core.ResolveFuncValue(p, core.Unwrap(st.Val)); fv != nil && fv.Fn.Parent() == f {
+			if out != fv.Fn {
+				n++
+			}
+			out = fv.Fn
+		}
+	})
+	if n == 1 {
+		return out
+	}
+	if n == 0 {
+		return core.ClosureArgOf(p, f, isCtor)
 	}
 	return nil
 }
